@@ -2222,6 +2222,29 @@ evutil_inet_ntop(int af, const void *src, char *dst, size_t len)
 #endif
 }
 
+/* Parse a dotted quad: exactly four decimal components (leading zeros are
+ * allowed) with a value of at most 255, separated by single dots, and nothing
+ * else.  Unlike sscanf("%u"), this accepts no white space and no signs. */
+static int
+evutil_parse_dotted_quad_(const char *s, unsigned bytes[4])
+{
+	int i;
+	for (i = 0; i < 4; ++i) {
+		unsigned v = 0;
+		if (!EVUTIL_ISDIGIT_(*s))
+			return 0;
+		while (EVUTIL_ISDIGIT_(*s)) {
+			v = v * 10 + (unsigned)(*s++ - '0');
+			if (v > 255)
+				return 0;
+		}
+		bytes[i] = v;
+		if (*s++ != (i < 3 ? '.' : '\0'))
+			return 0;
+	}
+	return 1;
+}
+
 int
 evutil_inet_pton_scope(int af, const char *src, void *dst, unsigned *indexp)
 {
@@ -2265,16 +2288,11 @@ evutil_inet_pton(int af, const char *src, void *dst)
 	return inet_pton(af, src, dst);
 #else
 	if (af == AF_INET) {
-		unsigned a,b,c,d;
-		char more;
+		unsigned b[4];
 		struct in_addr *addr = dst;
-		if (sscanf(src, "%u.%u.%u.%u%c", &a,&b,&c,&d,&more) != 4)
+		if (!evutil_parse_dotted_quad_(src, b))
 			return 0;
-		if (a > 255) return 0;
-		if (b > 255) return 0;
-		if (c > 255) return 0;
-		if (d > 255) return 0;
-		addr->s_addr = htonl((a<<24) | (b<<16) | (c<<8) | d);
+		addr->s_addr = htonl((b[0]<<24) | (b[1]<<16) | (b[2]<<8) | b[3]);
 		return 1;
 #ifdef AF_INET6
 	} else if (af == AF_INET6) {
@@ -2288,26 +2306,18 @@ evutil_inet_pton(int af, const char *src, void *dst)
 		else if (!dot)
 			eow = src+strlen(src);
 		else {
-			unsigned byte1,byte2,byte3,byte4;
-			char more;
+			unsigned b[4];
 			for (eow = dot-1; eow >= src && EVUTIL_ISDIGIT_(*eow); --eow)
 				;
 			++eow;
 
-			/* We use "scanf" because some platform inet_aton()s are too lax
-			 * about IPv4 addresses of the form "1.2.3" */
-			if (sscanf(eow, "%u.%u.%u.%u%c",
-					   &byte1,&byte2,&byte3,&byte4,&more) != 4)
+			/* We parse this ourselves because some platform inet_aton()s
+			 * are too lax about IPv4 addresses of the form "1.2.3" */
+			if (!evutil_parse_dotted_quad_(eow, b))
 				return 0;
 
-			if (byte1 > 255 ||
-			    byte2 > 255 ||
-			    byte3 > 255 ||
-			    byte4 > 255)
-				return 0;
-
-			words[6] = (byte1<<8) | byte2;
-			words[7] = (byte3<<8) | byte4;
+			words[6] = (b[0]<<8) | b[1];
+			words[7] = (b[2]<<8) | b[3];
 			setWords += 2;
 		}
 
@@ -2317,7 +2327,11 @@ evutil_inet_pton(int af, const char *src, void *dst)
 				return 0;
 			if (EVUTIL_ISXDIGIT_(*src)) {
 				char *next;
-				long r = strtol(src, &next, 16);
+				long r;
+				/* strtol() would skip a "0x" prefix. */
+				if (src[0] == '0' && (src[1] == 'x' || src[1] == 'X'))
+					return 0;
+				r = strtol(src, &next, 16);
 				if (next > 4+src)
 					return 0;
 				if (next == src)
@@ -2328,9 +2342,15 @@ evutil_inet_pton(int af, const char *src, void *dst)
 				words[i++] = (ev_uint16_t)r;
 				setWords++;
 				src = next;
-				if (*src != ':' && src != eow)
+				if (src == eow)
+					break;
+				if (*src != ':')
 					return 0;
 				++src;
+				/* A group may not be followed by a single trailing
+				 * colon. */
+				if (src == eow && !dot)
+					return 0;
 			} else if (*src == ':' && i > 0 && gapPos==-1) {
 				gapPos = i;
 				++src;
